@@ -9,6 +9,7 @@ RULE = ('one record per call of keypair / signature / signature_extended / exten
         'sampled 1-64 KiB, structured seeds, extended secrets derived from seeds and arbitrary clamped ones; distinct = (op, seed class, message length)')
 ASSUMPTIONS = ['Python-int RFC 8032 model pinned by RFC 8032 7.1 vectors; hashlib SHA-512']
 FLOORS = {'evaluations': 12000, 'distinct': 10000}
+THOROUGH_ROUNDS = 4   # thorough tier: generator passes with derived seeds (runner.gen_rounds)
 P = o.P
 
 
